@@ -173,7 +173,7 @@ func genC01Msg(e *Env, id string, canary bool) (desc string, out []byte) {
 	}
 	kind := "get"
 	if !canary {
-		kind = Pick(e, "get", "cl", "cl", "chunked", "chunked", "adv", "adv", "adv", "adv", "head", "cl0", "expect", "mp-epilogue")
+		kind = Pick(e, "get", "cl", "cl", "chunked", "chunked", "adv", "adv", "adv", "adv", "head", "cl0", "expect", "expect", "mp-epilogue")
 	}
 	ver := "HTTP/1.1"
 	if !canary && e.Chance(12) {
@@ -210,12 +210,19 @@ func genC01Msg(e *Env, id string, canary bool) (desc string, out []byte) {
 		g.line("")
 	case "expect":
 		// the server answers 100 Continue by itself; the client sends the body anyway
-		g.line("POST " + target + " HTTP/1.1")
+		// (also on HTTP/1.0, where the expectation means nothing but the body is framed all the same)
+		g.line("POST " + target + " " + ver)
 		hdr()
-		g.line("Expect: 100-continue")
-		g.line(fmt.Sprintf("Content-Length: %d", len(body)))
-		g.line("")
-		g.b.Write(body)
+		g.line("Expect: " + Pick(e, "100-continue", "100-continue", "100-Continue"))
+		if ver == "HTTP/1.1" && e.Chance(30) {
+			g.line("Transfer-Encoding: chunked")
+			g.line("")
+			g.b.Write(chunkedEncode(e, body, "plain"))
+		} else {
+			g.line(fmt.Sprintf("Content-Length: %d", len(body)))
+			g.line("")
+			g.b.Write(body)
+		}
 	case "mp-epilogue":
 		// a multipart body whose closing boundary is followed by an epilogue
 		// that looks like a request: all of it is inside Content-Length
